@@ -100,8 +100,14 @@ func initTuple() {
 				return value.Undefined, err
 			}
 
+			// a slice of an ArrayList is an ArrayList (as declared by its header), otherwise an ArrayTuple
+			_, selfIsList := self.SafeAsReference().(value.ArrayList)
+
 			if end < start && start <= length && end >= -1 {
 				// the range contains no index
+				if selfIsList {
+					return value.Ref(&value.ArrayListOfValue{}), value.Undefined
+				}
 				return value.Ref(&value.ArrayTupleOfValue{}), value.Undefined
 			}
 
@@ -125,6 +131,10 @@ func initTuple() {
 				result = append(result, element)
 			}
 
+			if selfIsList {
+				list := value.ArrayListOfValue(result)
+				return value.Ref(&list), value.Undefined
+			}
 			return value.Ref(&result), value.Undefined
 		},
 		DefWithParameters(1),
